@@ -397,6 +397,51 @@ def run(tier="quick", replay=None):
                 "auto: derives options with RunAndCompileInputData::new and compiles with compile_modern",
                 "%s no longer compiles modern programs through RunAndCompileInputData::{new, compile_modern}" % ent, fn=ent)
 
+    # ---------------- R11.e siblings agree on the ambient integer-conversion mode -------------------
+    GUARD_NEW = "compiler::clvm::NewStyleIntConversion::new"
+    counts = {}
+    for path, st in sorted(feeding.items()):
+        fams = [path] + ([st["via_field"][1]] if st["via_field"] else [])
+        n = 0
+        for fp in fams:
+            for g in prog.family(fp):
+                n += sum(1 for _, t in g.calls() if callee_of(t) == GUARD_NEW)
+        counts[path] = n
+    vals = sorted(set(counts.values()))
+    for path, n in sorted(counts.items()):
+        R.check(len(vals) <= 1, "R11.e", "R11.e|int-mode-guard|%s" % path, path,
+                "auto: installs the int-mode guard %d time(s) outside compile_file — the same at every site" % n,
+                "compile entry points disagree on the integer-conversion mode around the post-compile steps (finalising "
+                "optimiser, conversion to CLVM): guard installations per site %s. The same source is converted under "
+                "different integer rules depending on the tool" % counts, fn=path)
+
+    # ---------------- R11.f the search path reaches the compiler in the caller's order ----------------
+    nsp = 0
+    for f in sorted(prog.fns.values(), key=lambda f: f.path):
+        for bb, t in f.calls():
+            if (t.get("callee") or "") != "compiler::comptypes::CompilerOpts::set_search_paths":
+                continue
+            if f.root.startswith("compiler::") or "HasCompilerOptsDelegation" in f.root:
+                continue     # delegating wrappers, not entry points
+            nsp += 1
+            fl = Flow(f)
+            al = op_local(t["args"][1])
+            src = fl.back([al]) if al is not None else set()
+            bad = []
+            for b2, t2 in f.calls():
+                nm = (callee_of(t2) or "").rsplit("::", 1)[-1]
+                if nm in ("sort", "sort_by", "sort_by_key", "sort_unstable", "sort_unstable_by", "sort_unstable_by_key",
+                          "dedup", "dedup_by", "dedup_by_key", "reverse", "retain", "swap", "rotate_left", "rotate_right",
+                          "truncate", "swap_remove", "rev") and t2["args"]:
+                    rl = op_local(t2["args"][0])
+                    if rl is not None and (rl in src or (fl.back([rl]) & src & {x for x in src if "String" in fl.ty(x) and "Vec" in fl.ty(x)})):
+                        bad.append("%s at %s" % (callee_of(t2), f.loc(b2)))
+            R.check(not bad, "R11.f", "R11.f|search-paths|%s" % f.path, f.loc(bb),
+                    "auto: the include search path is handed to the compiler without reordering or dropping entries",
+                    "%s reorders or filters the include search path before compiling (%s): the first-match include resolution then "
+                    "differs from the other entry points given the same -i list" % (f.path, "; ".join(bad)), fn=f.path)
+    R.floor("R11.f", "set_search_paths call sites in entry points", nsp, 2)
+
     # ---------------- R11.d classic path ------------------------------------------------------------
     want = ("classic::clvm_tools::stages::stage_2::operators::run_program_for_search_paths", "classic::clvm_tools::stages::run")
     for ent in (LIB_CORE, "classic::clvm_tools::cmds::launch_tool"):
